@@ -8,6 +8,7 @@
   none of the three can happen, for every string and every table of link reference definitions.
 -/
 import Mistletoe.Proofs.CoreTotal
+import Mistletoe.Proofs.EmphSpec
 namespace Mistletoe.Props.C06
 open Mistletoe Mistletoe.Core
 
@@ -162,5 +163,59 @@ example : findCoreTokens "**a *b**\\".toList [] =
 
 /-- the link after `!` and a code span is found -/
 example : spans "!`x`[a](b)" = some [(4, 5, 6, 10, .link)] := by decide +kernel
+
+/-! ### The opener bottoms of `process_emphasis` are sound (first clause of C06, step 1)
+
+  `process_emphasis` records, per closer kind (delimiter character, whether the closer can also
+  open, original run length modulo 3), a lower bound below which no opener has to be looked for
+  (the specification's "openers_bottom"), and re-indexes the bounds after every match.  The
+  theorems say this is only an optimisation: the opener found, the matches and the remaining
+  delimiters are those of the plain algorithm that always searches down to the stack bottom
+  (`emphLoopNB`, `processEmphasisNB`, `findCoreTokensNB` in Proofs/EmphSpec.lean). -/
+
+/-- **The recorded bottoms never change which opener is found.**  `BInv sb ds bs curr` is the
+    invariant of `bottoms`: every recorded bound lies below the current closer and not below the
+    stack bottom, and no delimiter between the stack bottom and the bound is an opener that a
+    closer with that key accepts.  It holds for the empty `bottoms` and is kept by every iteration
+    (`BInv.step`).  Under it, searching down to the bound recorded for the closer's key finds the
+    same opener as searching down to the stack bottom. -/
+theorem C06_bottoms_sound (sb : Option Nat) (ds : List Delim) (bs : List (BKey × Option Nat)) (curr : Nat)
+    (closer : Delim) (ch : Char) (hB : BInv sb ds bs curr)
+    (hall : ∀ d ∈ ds, d.emph = true → d.type ≠ [])
+    (hc : ds[curr]? = some closer) (hh : closer.type.head? = some ch) (hcl : closer.closes = true) :
+    matchingOpener curr ds (bottomsGet bs (ch, closer.opens, closer.runLength % 3) sb) =
+      matchingOpener curr ds sb :=
+  bottoms_sound sb ds bs curr closer ch hB hall hc hh hcl
+
+/-- **`process_emphasis` = `process_emphasis` without bottoms**, for every delimiter list that
+    satisfies the chain invariant (well-formed, ordered, disjoint delimiters inside the string) and
+    whose stack-bottom delimiter (the `[` / `![` of the link being closed) is not an emphasis
+    delimiter: same matches, same remaining delimiters, same (absence of) error. -/
+theorem C06_process_emphasis_no_bottoms (s : Str) (sb : Option Nat) (lo hi : Nat) (hhi : hi ≤ s.length)
+    (ds : List Delim) (ms : List CoreM) (hC : Chain lo hi ds)
+    (hsb : ∀ x d, sb = some x → ds[x]? = some d → d.emph = false) :
+    processEmphasis s sb ds ms = processEmphasisNB s sb ds ms :=
+  processEmphasis_eq_noBottoms s sb lo hi hhi ds ms hC hsb
+
+/-- **`find_core_tokens` does not depend on the bottoms**, unconditionally: for every text and every
+    table of definitions, it returns exactly what it returns when every `process_emphasis` call
+    (those made by `find_link_image` and the final one) searches openers down to the stack bottom
+    without any bottoms bookkeeping. -/
+theorem C06_find_core_tokens_no_bottoms (s : Str) (fn : Footnotes.Table) :
+    findCoreTokens s fn = findCoreTokensNB s fn :=
+  findCoreTokens_eq_noBottoms s fn
+
+/-- non-vacuity: the loop without bottoms evaluates; here closers fail to find an opener (which
+    records bottoms in the real loop) before later closers match -/
+example : (match findCoreTokensNB "a* *b c* **d* e**".toList [] with
+    | .ok (ms, _) => some (ms.map (fun m => (m.start, m.ts, m.te, m.stop, m.kind)))
+    | .err _ => none) =
+    some [(3, 4, 7, 8, .emphasis), (10, 11, 12, 13, .emphasis), (9, 10, 15, 16, .emphasis)] := by decide +kernel
+
+example : findCoreTokens "a* *b c* **d* e**".toList [] = findCoreTokensNB "a* *b c* **d* e**".toList [] :=
+  C06_find_core_tokens_no_bottoms _ _
+
+/-- the invariant of `bottoms` holds at the start of every `process_emphasis` -/
+example (sb : Option Nat) (ds : List Delim) (curr : Nat) : BInv sb ds [] curr := fun e he => by cases he
 
 end Mistletoe.Props.C06
